@@ -90,6 +90,7 @@ func (s *shardNodeReader) makeReader() (io.Reader, error) {
 func (s *shardNodeFile) unpack() (data.UnixFSData, error) {
 	var retErr error
 	s.unpackLk.Do(func() {
+		verifAt("file.unpack.once")
 		nodeData, err := s.substrate.LookupByString("Data")
 		if err != nil {
 			retErr = err
